@@ -48,7 +48,7 @@ class World:
 
 def step(w, ri, tg):
     rng = w.rng
-    kind = rng.choice(["create", "create_id", "create_setter", "copy", "json", "xml", "attach", "remove", "replace", "replace_keep", "prune", "expand", "delete", "delete_nochildren"])
+    kind = rng.choice(["create", "create_id", "create_setter", "replace_rejected", "copy", "json", "xml", "attach", "remove", "replace", "replace_keep", "prune", "expand", "delete", "delete_nochildren"])
     nodes = w.all_nodes()
     if kind == "create":
         n = Node(rng.choice(["title", "para", "zz"]), content=rng.choice([None, "x"]))
@@ -69,6 +69,20 @@ def step(w, ri, tg):
             for k in kids:
                 top.children.append(k)
         w.add_tree(top)
+    elif kind == "replace_rejected":
+        # a replace that is refused (the old node is not a child of the receiver) discards nothing
+        cands = [n for n in nodes if n.children and any(c.children for c in n.children)]
+        if cands:
+            p = rng.choice(cands)
+            mid = rng.choice([c for c in p.children if c.children])
+            old = rng.choice(mid.children)          # a grandchild of p
+            new = Node(old.name, content="new")
+            w.live[new.id] = new; w.keep.append(new); w.roots.append(new)
+            w.log.append(["add", idtree(new, w.tags)])
+            try:
+                p.replace_child(old, new, delete_old=True)
+            except ValueError:
+                pass
     elif kind == "copy" and nodes:
         src = rng.choice(nodes)
         w.add_tree(src.copy())
@@ -81,7 +95,8 @@ def step(w, ri, tg):
             Node.store.pop(n.id, None)          # undo the scratch build so that the history has no deliberate id reuse
         w.add_tree(metapype_io.from_json(js))
     elif kind == "xml":
-        xml = rng.choice(["<a><b>t</b><!--c--><c x='1'/></a>", "<eml:eml xmlns:eml='u'><dataset><title>T</title></dataset></eml:eml>", "<p/>"])
+        xml = rng.choice(["<a><b>t</b><!--c--><c x='1'/></a>", "<eml:eml xmlns:eml='u'><dataset><title>T</title></dataset></eml:eml>", "<p/>",
+                          "<abstract><para>Some <emphasis>bold <subscript>x</subscript></emphasis> tail</para></abstract>"])
         w.add_tree(metapype_io.from_xml(xml))
     elif kind == "attach" and len(w.roots) >= 2:
         a, b = rng.sample(w.roots, 2)
